@@ -796,7 +796,7 @@ func (f *Frame) havocAll(st *State, why string) {
 	vc := f.vc
 	var keys []string
 	for k := range vc.universe {
-		if strings.HasPrefix(k, "L:") || strings.HasPrefix(k, "it:") {
+		if strings.HasPrefix(k, "L:") || strings.HasPrefix(k, "it:") || strings.HasPrefix(k, "lock:") {
 			continue
 		}
 		keys = append(keys, k)
